@@ -2,7 +2,7 @@
    file of every read.  Proofs: LayeredFactsA.v.  The regenerated call-site
    inventory shows that the parser is entered only through the gate. *)
 From Coq Require Import String Lia List.
-From Econf Require Import Bytes BytesFacts LayeredSpec LayeredFactsA Generated_facts LayeredScenario ThreadsModel ThreadsGlobal.
+From Econf Require Import Bytes BytesFacts LayeredSpec LayeredFactsA Generated_facts LayeredScenario ThreadsModel ThreadsGlobal SecOps.
 Local Open Scope N_scope.
 
 (* a file that violates a rule in force is refused with the specific code,
@@ -71,6 +71,43 @@ Theorem C16_permissions_process_wide : forall g ts i j fm dm c,
                        (g_conf_dirs g) (g_errfile g) (g_errline g)) (ts j) c))].
 Proof. exact perms_are_process_wide. Qed.
 Print Assumptions C16_permissions_process_wide.
+
+(* the setters, one call at a time (SecOps.v): every setter ASSIGNS — the source says so (bodies regenerated from
+   lib/libeconf.c on every run) — hence what is in force is what the LAST call for a field said, after any history of
+   earlier calls (redundant ones, opposite ones, repeated ones) *)
+Theorem C16_setters_assign :
+  gen_security_setters =
+  [("econf_requireOwner", ["file_owner_set=true"; "file_owner=owner"]);
+   ("econf_requireGroup", ["file_group_set=true"; "file_group=group"]);
+   ("econf_requirePermissions", ["file_permissions_set=true"; "file_perms_file=file_perms"; "file_perms_dir=dir_perms"]);
+   ("econf_followSymlinks", ["allow_follow_symlinks=allow"]);
+   ("econf_reset_security_settings", ["file_owner_set=false"; "file_group_set=false"; "file_permissions_set=false"; "allow_follow_symlinks=true"])]%string.
+Proof. reflexivity. Qed.
+Print Assumptions C16_setters_assign.
+
+Theorem C16_last_call_counts : forall before allow after s,
+  forallb (fun o => negb (touches_follow o)) after = true ->
+  sec_nolinks (sec_run s (before ++ OpFollow allow :: after)) = negb allow.
+Proof. exact follow_last_call_counts. Qed.
+Print Assumptions C16_last_call_counts.
+
+Theorem C16_last_owner_group_count : forall before after s,
+  (forall u, forallb (fun o => negb (touches_owner o)) after = true -> sec_owner (sec_run s (before ++ OpOwner u :: after)) = Some u) /\
+  (forall g, forallb (fun o => negb (touches_group o)) after = true -> sec_group (sec_run s (before ++ OpGroup g :: after)) = Some g) /\
+  sec_run s (before ++ [OpReset]) = sec_none.
+Proof.
+  intros before after s. split; [|split].
+  - intros u H. now apply owner_last_call_counts.
+  - intros g H. now apply group_last_call_counts.
+  - apply reset_forgets_everything.
+Qed.
+Print Assumptions C16_last_owner_group_count.
+
+(* the six call sequences the harness uses for "sec o g n" all install the setting the scenario model installs at once *)
+Theorem C16_harness_orders : forall k o g nolinks s0,
+  sec_run s0 (harness_order k o g nolinks) = mkSec o g nolinks None.
+Proof. exact harness_orders_agree. Qed.
+Print Assumptions C16_harness_orders.
 
 (* the source, as it is now: read_file is called only from the gate, the gate
    only from the three readers, fopen for reading only in read_file, lstat only
